@@ -1,4 +1,5 @@
-"""C03 finding (doc-line-after-box-indented): `_process_admonitions` indents
+"""C03 finding (doc-line-after-box-indented; repaired in /repo, kept as a regression demo):
+`_process_admonitions` indented
 `range(start_idx + 1, min(len(lines), end_idx + 1))`, i.e. the line AT the end index as well:
  (a) after the `@endnote` line has been deleted that index holds the following line, so
      `@note` / `a` / `@endnote` / `b` renders `b` inside the Note box;
